@@ -1,0 +1,30 @@
+//go:build verif
+
+// Contracts for package socks5 (comment-only; read by /verif/govc).
+
+package socks5
+
+// RFC 1928/1929 negotiation as the peer sends it (instream positions):
+//   0: version  1: n = number of methods  2..2+n-1: methods
+//   2+n: sub-negotiation version  3+n: ulen  4+n..: user  4+n+ulen: plen  5+n+ulen..: password
+//
+//@ func (s *Server) handleAuthentication(conn net.Conn) (err error)
+//@   property C11 C10
+//@   mode int
+//@   requires s != nil && s.config != nil && conn != nil
+//@   requires ghost(rd) == 0
+//@   ensures err == nil && len(s.config.AuthOpts.IngressCredentials) > 0 ==> exists(k, 0, len(s.config.AuthOpts.IngressCredentials), strIsStream(s.config.AuthOpts.IngressCredentials[k].User, 4 + mathint(instream(1)), mathint(instream(3 + mathint(instream(1))))) && strIsStream(s.config.AuthOpts.IngressCredentials[k].Password, 5 + mathint(instream(1)) + mathint(instream(3 + mathint(instream(1)))), mathint(instream(4 + mathint(instream(1)) + mathint(instream(3 + mathint(instream(1))))))))
+//@   ensures err == nil && len(s.config.AuthOpts.IngressCredentials) > 0 ==> ghost(rd) == 5 + mathint(instream(1)) + mathint(instream(3 + mathint(instream(1)))) + mathint(instream(4 + mathint(instream(1)) + mathint(instream(3 + mathint(instream(1))))))
+//@   ensures err == nil && len(s.config.AuthOpts.IngressCredentials) == 0 ==> exists(j, 0, int(instream(1)), instream(2 + mathint(j)) == 0)
+//@   ensures err == nil ==> instream(0) == 5 && instream(1) != 0
+//@   witness rangeindex__2
+//@   loop 1:
+//@     modifies nothing
+//@     invariant -1 <= rangeindex && rangeindex < len(authMethods)
+//@     invariant requestNoAuth <==> exists(j, 0, rangeindex + 1, authMethods[j] == 0)
+//@     invariant requestUserPassAuth <==> exists(j, 0, rangeindex + 1, authMethods[j] == 2)
+//@   loop 2:
+//@     modifies nothing
+//@     invariant -1 <= rangeindex__2 && rangeindex__2 < len(s.config.AuthOpts.IngressCredentials)
+//@
+//@ global HandshakeErrors: v != nil
